@@ -137,7 +137,9 @@ STRENGTHENED = """
 | C13-j (closed bid ignored at catch-up) | a closed bid left no record in the chain model | bid records persist after close; a create-bid for an order the provider ever bid on is a second bid; a closed bid found at catch-up is no close-bid obligation |
 | C14-i (teardown overtakes the deploy at shutdown) | shutdown only happened at the end of a history | a quarter of the Layer-1 histories contain a provider shutdown; afterwards only the safety clauses are judged |
 | C16-i (feed drops repeated events) | caught by the C15 feed scenario once results may repeat an identical event | - |
-| not reached: C07-i (data race with a concurrent Simulate goroutine: real threads inside the application are outside the simulator), C07-j (sync.Pool contents depend on the collector; a child process that collects before every transaction is in place but the history is rare), C10-i (needs a hostname service slower than 1 s), C14-j (start-up path with existing workloads is not simulated), C16-j (needs a failing bank refund, which no chain history produces) | | |
+| C10-i (version update given up after 1 s) | the hostname service of the manifest scenario answered at once, so a validation never took time | in 30 % of the Layer-1 runs the hostname service answers only when the schedule says so; version updates, closes and clock steps fall into the wait (this also uncovered S16) |
+| C14-j (service subscribes after the start-up queries) | every history began with an empty cluster | a quarter of the Layer-1 histories start the cluster service over workloads that are already running: the cluster's and the node's answers take time, and leases close or updates arrive meanwhile |
+| not reached: C07-i (data race with a concurrent Simulate goroutine: real threads inside the application are outside the simulator), C07-j (sync.Pool contents depend on the collector; a child process that collects before every transaction is in place but the history is rare), C16-j (needs a failing bank refund, which no chain history produces) | | |
 | C20-a (wait on Done()) / C10-b (updates dropped during fetch) | deployment-closed rarely hit an in-flight fetch; fetch answers were always computed at completion time; no submission of the previous version | close is 4x more likely while a fetch is in flight; 40 % of fetch answers reflect the state at issue time; new submission kind "previous-version" |
 """
 
